@@ -50,11 +50,18 @@ CHECKS = {
  'C16': ('exact-or-loud relation + shadow-model history checker for bridged containers',
          'Go functions of every parameter type called with boundary JS values: the callee received exactly the denoted value or the script saw a TypeError/RangeError; histories of script and Go-side mutations on bridged slices/maps/structs compared with a shadow copy after every step. Exploration.',
          'trusted base: internal/refbridge; otto README contract for bridged calls'),
+ 'C18': ('step-indexed fault injection through the product\'s own interrupt channel (self-re-arming function = step hook), dry-run prefix oracle, state-at-rest hook, follow-up probe; control-runtime promptness check; stack-limit threshold check',
+         'Every polling step of generated programs (all k up to 300 per program) gets an interrupt panic; Run must unwind with exactly that panic, the host-call trace and global fuel counter must equal the dry-run prefix, scope depth and label count (verif hook) must be zero and a probe script must still work; the same for host-function panics, uncaught exceptions and stack-limit RangeErrors; poll-free loop shapes are interrupted from another goroutine against a control runtime; limit L admits exactly L-1 nested plain calls. Fault enumeration over polling steps of the generated programs.',
+         'trusted base: the interpreter polls deterministically (dry run and injected run number steps identically); hook verif_hooks.go (read-only)'),
+ 'C19': ('generator-known positions and classes: error class/shape observed in-script and through Run, every stack frame line compared with the call sites the generator placed, syntax error positions; known call-site defects as exact deviation models',
+         'About 70 error-raising constructs x 12 nestings (class, prototype chain, message, String(e), Run text); chains of up to 12 frames of every call form with generated line/column positions x trace limits x file names; offending tokens at generated positions through ParseFile/Run/eval/Function. Exploration.',
+         'trusted base: the call-site convention pinned by error_test.go/function_stack_test.go'),
  'C14': ('exhaustive table check of ES5 section 15 shape in 5 runtime contexts + distinguishing calls + recursive shape dumps',
          'A hand-transcribed table of every ES5.1 section 15 binding (kind, length, attributes, class, links) is evaluated exhaustively in fresh/second/underscore/Copy/Copy-of-Copy runtimes. Finite space enumerated completely (exhaustive: true).',
          'trusted base: internal/es5table transcription'),
 }
 LEVEL = {k: 'exploration' for k in CHECKS}
+LEVEL['C18'] = 'fault_enumeration'
 REASONS = {}
 checks = []
 for p in props:
